@@ -135,6 +135,19 @@ type ConstFormat struct {
 	Line  int
 }
 
+// FieldsCompared: "fieldscompared F1,F2 TYPE except A,B": every field of the
+// struct TYPE (of the contract file's package) other than A, B is read by one
+// of the functions F1, F2 or a function of the package they call.
+type FieldsCompared struct {
+	Props  []string
+	Funcs  []string
+	Type   string
+	Except []string
+	Pkg    string
+	File   string
+	Line   int
+}
+
 type MapRangeRule struct {
 	Props  []string
 	Func   string // function key
@@ -153,6 +166,7 @@ type Contracts struct {
 	GlobalConsts []*GlobalConst
 	EmitOnSuccess []*EmitOnSuccess
 	ConstFormats []*ConstFormat
+	FieldsCompared []*FieldsCompared
 	Funcs  map[string]*FuncContract // key: pkgpath + "::" + relname, or absolute name for externals
 	Ghosts map[string]*GhostVar
 	Specs  map[string]*SpecFunc
@@ -163,7 +177,7 @@ type Contracts struct {
 }
 
 var clauseRe = regexp.MustCompile(`^(requires|hypothesis|ensures|xensures|invariant|decreases|assert|assume|modifies|trusted|freshresult|pure|inline|noinline|nullable|maypanic|nopanic|let|set|init|specialize|assign)\b(\[[A-Za-z0-9, ]*\])?\s*(.*)$`)
-var topRe = regexp.MustCompile(`^(func|ghost|spec|axiom|lemma|iface|only|maprange|globalconst|emitonsuccess|constformat)\b(\[[A-Za-z0-9, ]*\])?\s*(.*)$`)
+var topRe = regexp.MustCompile(`^(func|ghost|spec|axiom|lemma|iface|only|maprange|globalconst|emitonsuccess|constformat|fieldscompared)\b(\[[A-Za-z0-9, ]*\])?\s*(.*)$`)
 
 func parseProps(s string) []string {
 	s = strings.Trim(s, "[]")
@@ -350,6 +364,23 @@ func (cs *Contracts) parseFile(fname, pkg, prefix string) {
 					r.Allowed = append(r.Allowed, a)
 				}
 				cs.Onlys = append(cs.Onlys, r)
+			case "fieldscompared":
+				f := strings.Fields(rest)
+				if len(f) < 2 || (len(f) > 2 && (len(f) != 4 || f[2] != "except")) {
+					cs.errf(fname, l.line, "fieldscompared needs FUNC[,FUNC] TYPE [except F1,F2]")
+					continue
+				}
+				r := &FieldsCompared{Props: props, Type: f[1], Pkg: pkg, File: fname, Line: l.line}
+				for _, fn := range strings.Split(f[0], ",") {
+					if pkg != "" && !strings.Contains(fn, "::") {
+						fn = pkg + "::" + fn
+					}
+					r.Funcs = append(r.Funcs, fn)
+				}
+				if len(f) == 4 {
+					r.Except = strings.Split(f[3], ",")
+				}
+				cs.FieldsCompared = append(cs.FieldsCompared, r)
 			case "constformat":
 				cs.ConstFormats = append(cs.ConstFormats, &ConstFormat{Props: props, Pkg: pkg, File: fname, Line: l.line})
 			case "emitonsuccess":
